@@ -91,7 +91,7 @@ theorem decode_gate (env : Env) (be : Backend) (i : Inst) (frags : List Bytes) (
 
 /-- reconstruct: any unacceptable header ⇒ EBADHEADER (for an in-range destination). -/
 theorem reconstruct_gate (env : Env) (be : Backend) (i : Inst) (frags : List Bytes) (fragLen : Nat)
-    (dest : Int) (hd : 0 ≤ dest ∧ dest < ((i.k + i.m : Nat) : Int))
+    (dest : Int) (hd : 0 ≤ dest ∧ dest < ((i.k + i.m : Nat) : Int)) (hl : 80 ≤ fragLen)
     (hbad : ∃ f ∈ frags, ¬ RefAccept f) :
     reconstruct env be i frags fragLen dest = .error (.rc (-EBADHEADER)) := by
   obtain ⟨f, hf, hr⟩ := hbad
@@ -100,7 +100,8 @@ theorem reconstruct_gate (env : Env) (be : Backend) (i : Inst) (frags : List Byt
   unfold reconstruct
   have h1 : (decide (dest < 0) || decide (dest ≥ ((i.k + i.m : Nat) : Int))) = false := by
     simp; omega
-  simp only [h1, Bool.false_eq_true, if_false, hany, if_true, failRc]
+  simp only [h1, Bool.false_eq_true, if_false, hany, if_true, failRc,
+    show ¬ fragLen < Hdr.size from by simp [Hdr.size]; omega]
 
 /-! ### host byte order -/
 
@@ -154,11 +155,14 @@ theorem reconstruct_host_order (env : Env) (be : Backend) (i : Inst) (frags : Li
   by_cases h1 : (decide (dest < 0) || decide (dest ≥ ((i.k + i.m : Nat) : Int))) = true
   · rw [if_pos h1]; exact ⟨_, rfl, Or.inr rfl⟩
   · rw [if_neg h1]
-    by_cases h2 : frags.any isInvalidHeader = true
-    · rw [if_pos h2]; exact ⟨_, rfl, Or.inl rfl⟩
-    · rw [if_neg h2]
-      rw [partition_nonnative i.k i.m frags h]
-      exact ⟨_, rfl, Or.inl rfl⟩
+    by_cases h3 : fragLen < Hdr.size
+    · rw [if_pos h3]; exact ⟨_, rfl, Or.inl rfl⟩
+    · rw [if_neg h3]
+      by_cases h2 : frags.any isInvalidHeader = true
+      · rw [if_pos h2]; exact ⟨_, rfl, Or.inl rfl⟩
+      · rw [if_neg h2]
+        rw [partition_nonnative i.k i.m frags h]
+        exact ⟨_, rfl, Or.inl rfl⟩
 
 /-! ### fresh headers -/
 
